@@ -24,6 +24,17 @@ checks = {
  "C11": dict(text="Space conservation: TxCore!Partition, MetaAccounting, Conservation (allocatable + live + meta + 2 = max), StatsTruthful and ExtentBound are evaluated by TLC on the projection of the real allocator / FileStats / file extent at every quiescent point of long alloc/free cycles on small bounded files (incl. max sizes that are not a multiple of the page size, preallocation).", ref="6 C11"),
 }
 
+PQ_NOTE = ("Traces come from the real Writer/Reader/ACK API on a real File on the simulated disk; flush/ACK effects are linearised at the store's commit/switched hook; "
+           "event contents identify the event id modulo 256; the layout arithmetic of SpaceBound assumes the 28 byte page header and 4 byte event header; bounds: see evidence.")
+PQ_TECH = "TLA+ specification (PQTrace) + TLC trace validation of recorded executions of the real queue; crash images / interleavings generated by the harness, judged by TLC"
+checks.update({
+ "C05": dict(text="Queue FIFO/exactly-once/byte-identical: every RNext size, every byte returned by RRead (content identifies the event id) and the read cursor of random producer/consumer histories (size classes around page and header boundaries, chunked writes with flushes inside events, partial reads and skips, full-file retries, reopen in the middle of an event) are judged by PQTrace.tla (Fifo, ReadBytes, EventSize, WriteAccepted).", ref="6 C05", note=PQ_NOTE, tech=PQ_TECH),
+ "C06": dict(text="Queue durability: at every I/O boundary of producer/consumer histories crash images are enumerated, opened by the real code (file, delegate, queue) and drained with the real Reader; PQTrace!CrashDrain requires exactly flushed minus ACKed (or that with the one transaction in its commit applied completely), in order, byte-identical; close/reopen points are judged by CloseFlushes/ReopenPending/NoRedelivery; flushes hit by transient injected I/O errors must be durable after the retry that reports success.", ref="6 C06", note=PQ_NOTE, tech=PQ_TECH),
+ "C12": dict(text="Queue space: fill-to-error/drain cycles on small bounded files; PQTrace judges that operations fail only when the file is full (or a failure was injected) and without loss, that reading and ACK succeed on the full file, that buffered events are delivered in order after space was freed, and that pages held (queue header, FileStats) and file extent stay within SpaceBound after every ACK.", ref="6 C12", note=PQ_NOTE, tech=PQ_TECH),
+ "C13": dict(text="Concurrent producer/consumer: free-running two-goroutine executions and steered interleavings (a read transaction spans a flush/ACK commit that waits for the exclusive lock, via gates on the store's hooks) are recorded in real order and judged by PQTrace.tla (exact sequence, callbacks, ACK bounds, no panic/hang); a race-detector build of the same drivers reports data races.", ref="6 C13", note=PQ_NOTE + " Data-race freedom is sampled by the race detector, not decided by the specification.", tech=PQ_TECH + "; Go race detector on the concurrent drivers"),
+ "C17": dict(text="Counters and callbacks: Pending, Active, Reader.Available and the Flushed/ACKed callback totals are judged by PQTrace.tla at every observation point of producer/consumer/reopen histories incl. failed flushes on full files.", ref="6 C17", note=PQ_NOTE, tech=PQ_TECH),
+})
+
 out = {
  "version": 1,
  "setup_cmd": "cd /verif/harness && GOFLAGS=-mod=mod GOPROXY=off GOSUMDB=off GOTOOLCHAIN=local go build -tags verif -o /verif/bin/txv ./cmd/txv",
